@@ -132,8 +132,11 @@ def _eb(d):
     if "EBLIF.type" not in d:
         return ""
     parts = ["type=" + str(d["EBLIF.type"]).replace("EBLIF.", "")]
+    # the effective .cname: an instance read without one is named by the reader and written with that name as .cname
     if "EBLIF.cname" in d:
         parts.append("cname=" + str(d["EBLIF.cname"]))
+    elif ".NAME" in d and d[".NAME"] is not None:
+        parts.append("cname=" + str(d[".NAME"]))
     for key, tag in (("EBLIF.attr", "attr"), ("EBLIF.param", "param")):
         v = d[key] if key in d else None
         if isinstance(v, dict) and v:
@@ -486,7 +489,15 @@ def _do(reg, c):
     if op in ("set_item", "del_item", "pop_item", "set_name", "del_name", "set_name_none"):
         e = reg.get(c["kind"], c["x"])
         if op == "set_item":
-            e[KEYMAP[c["key"]]] = [{"identifier": "p", "value": c["val"]}, {"identifier": "q", "value": "w"}] if c["key"] == "props" else c["val"]
+            if c["key"] == "props":
+                # a nested user value: two properties; on odd element ids the first one carries an original name
+                # (it is written as a rename construct and followed by a plain property)
+                first = {"identifier": "p", "value": c["val"]}
+                if c["x"] % 2 == 1:
+                    first["original_identifier"] = "P.x"
+                e[KEYMAP["props"]] = [first, {"identifier": "q", "value": "w"}]
+            else:
+                e[KEYMAP[c["key"]]] = c["val"]
         elif op == "del_item":
             del e[KEYMAP[c["key"]]]
         elif op == "pop_item":
@@ -520,6 +531,8 @@ def _do(reg, c):
         return []
     if op == "reset":
         return []
+    if op == "load_example":
+        return [("N", sdn.parse(example_path(c["fmt"], c["name"])))]
     if op in QUERY_OPS:
         return QUERY_OPS[op](reg, c)
     raise HarnessError("unknown op %r" % (op,))
@@ -772,6 +785,47 @@ def _x_edif_rt(reg, c):
     return [("N", new)] if new is not None else []
 
 
+EXAMPLE_DIRS = {"edif": ("EDIF_netlists", ".edf.zip"), "vlog": ("verilog_netlists", ".v.zip"),
+                "eblif": ("eblif_netlists", ".eblif.zip")}
+
+
+def example_path(fmt, name):
+    d, ext = EXAMPLE_DIRS[fmt]
+    return os.path.join(os.environ["EXAMPLE_NETLISTS_PATH"], d, name + ext)
+
+
+def example_names(fmt):
+    d, ext = EXAMPLE_DIRS[fmt]
+    base = os.path.join(os.environ["EXAMPLE_NETLISTS_PATH"], d)
+    return sorted(f[:-len(ext)] for f in os.listdir(base) if f.endswith(ext) and os.path.getsize(os.path.join(base, f)) > 0)
+
+
+def _x_edif_file_read(reg, c):
+    """a bundled .edf example: the text is read by the independent reader and by the real reader"""
+    import edif_text
+    import zipfile
+    extra = {}
+    path = example_path("edif", c["name"])
+    with zipfile.ZipFile(path) as z:
+        text = z.read(z.namelist()[0]).decode("utf-8", "replace")
+    try:
+        extra["filecanon"] = edif_text.read_canon(text)
+        extra["file_readable"] = True
+    except Exception as e:
+        extra["file_readable"] = False
+        extra["file_error"] = "%s: %s" % (type(e).__name__, str(e)[:200])
+    new = sdn.parse(path)
+    reg.last_extra = extra
+    return [("N", new)]
+
+
+def _x_file_read(reg, c):
+    """a bundled .v / .eblif example read by the real reader (accepted, well-formed, self-contained)"""
+    new = sdn.parse(example_path(c["fmt"], c["name"]))
+    reg.last_extra = {}
+    return [("N", new)]
+
+
 def _x_vlog_read(reg, c):
     """render netlist n of the current abstract state as Verilog with the independent writer, parse it"""
     import verilog_text
@@ -797,7 +851,7 @@ def _x_vlog_rt(reg, c):
     extra = {}
     new = None
     try:
-        sdn.compose(reg.get("N", c["n"]), path)
+        sdn.compose(reg.get("N", c["n"]), path, **{k: v for k, v in (c.get("copts") or {}).items()})
         try:
             new = sdn.parse(path)
             extra["reader_accepts"] = True
@@ -1059,7 +1113,7 @@ def _x_clone(reg, c):
     return [(c["kind"], new)]
 
 
-QUERY_OPS = {"parse_text": _x_parse_text, "compose2": _x_compose2, "eblif_read": _x_eblif_read, "eblif_rt": _x_eblif_rt, "vlog_read": _x_vlog_read, "vlog_rt": _x_vlog_rt, "edif_read": _x_edif_read, "edif_rt": _x_edif_rt, "compare": _x_compare, "q": _q_query, "clone": _x_clone, "hq": _q_hq, "hcheck": _q_hcheck, "uniquify": _x_uniquify, "flatten": _x_flatten}
+QUERY_OPS = {"file_read": _x_file_read, "edif_file_read": _x_edif_file_read, "parse_text": _x_parse_text, "compose2": _x_compose2, "eblif_read": _x_eblif_read, "eblif_rt": _x_eblif_rt, "vlog_read": _x_vlog_read, "vlog_rt": _x_vlog_rt, "edif_read": _x_edif_read, "edif_rt": _x_edif_rt, "compare": _x_compare, "q": _q_query, "clone": _x_clone, "hq": _q_hq, "hcheck": _q_hcheck, "uniquify": _x_uniquify, "flatten": _x_flatten}
 
 
 class CallTimeout(Exception):
@@ -1096,7 +1150,7 @@ def execute(reg, c):
     for kind, obj in created:
         if obj is not None:
             reg.bind(kind, obj)
-    if c["op"] in ("clone", "edif_read", "edif_rt", "vlog_read", "vlog_rt", "eblif_read", "eblif_rt", "parse_text"):
+    if c["op"] in ("clone", "file_read", "edif_file_read", "edif_read", "edif_rt", "vlog_read", "vlog_rt", "eblif_read", "eblif_rt", "parse_text"):
         reg.last_ret = [reg.id_of(created[0][1], created[0][0])] if created else []
         reg.last_info = []
     return "ok", ""
@@ -1128,6 +1182,44 @@ def fresh(listeners=""):
             else:
                 ACTIVE_LISTENERS.append(mirror.PassiveListener())
     return reg
+
+
+def _known(reg, obj):
+    """id of an element the registry knows; 0 for None and for an object that exists nowhere in the
+    projected state (the orphan of a refused create_X) - announcements must not make it known"""
+    if obj is None:
+        return 0
+    ent = reg.ids.get(id(obj))
+    return ent[1] if ent is not None else 0
+
+
+def ann_records(reg, ann):
+    """the announcements of one call in the specification's vocabulary:
+    [ev, late, rep, k1, a, k2, b, key, val] - element arguments as (kind, id), pins as pin references"""
+    inv = {v: k for k, v in KEYMAP.items()}
+    out = []
+    for a in ann:
+        r = {"ev": a["ev"], "late": a["late"], "rep": a["rep"], "k1": "", "a": 0, "k2": "", "b": 0,
+             "pin": {"k": "-", "i": 0, "q": 0}, "key": "", "val": ""}
+        args = a.get("args", ())
+        if args:
+            r["k1"], r["a"] = kind_of(args[0]) or "?", _known(reg, args[0])
+        if a["ev"].startswith("dictionary_"):
+            r["key"] = inv.get(args[1], str(args[1]))
+            if len(args) > 2:
+                r["val"] = _props(args[2]) if args[1] == "EDIF.properties" else _val(args[2])
+        elif a["ev"].startswith("wire_") and len(args) > 1:
+            # what the pin was when it was announced (an outer pin may be detached by now)
+            if isinstance(args[1], InnerPin):
+                r["pin"] = {"k": "i", "i": 0, "q": _known(reg, args[1])}
+            elif len(args) > 3 and args[2] is not None and args[3] is not None:
+                r["pin"] = {"k": "o", "i": _known(reg, args[2]), "q": _known(reg, args[3])}
+            else:
+                r["pin"] = {"k": "x", "i": 0, "q": 0}
+        elif len(args) > 1:
+            r["k2"], r["b"] = (kind_of(args[1]) or "?", _known(reg, args[1])) if args[1] is not None else ("", 0)
+        out.append(r)
+    return out
 
 
 def project_mirror(reg):
@@ -1189,6 +1281,6 @@ def build(calls, listeners=""):
         execute(reg, c)
         # creating calls may create more than they return (pins of a new port, a whole clone ...):
         # adopt them in the canonical walk order right away so ids follow creation order
-        if c["op"] in ("create", "create_n", "create_child", "set_top_def", "new", "clone", "uniquify", "seq"):
+        if c["op"] in ("create", "create_n", "create_child", "set_top_def", "new", "clone", "uniquify", "seq", "load_example"):
             adopt(reg)
     return reg
